@@ -1118,6 +1118,41 @@ pub fn bloom_job(bits: usize, shm: &Shm, max_set: usize, big_sets: &[usize]) {
     if !check(&[], "empty") {
         return;
     }
+    // a filter is read back by whatever policy the database is opened with later: the number of
+    // probes is stored in the filter, so a policy with another bits_per_key must give the same
+    // answers for the members
+    for &other_bits in &[1usize, 4, 10, 20, 64] {
+        if other_bits == bits {
+            continue;
+        }
+        let reader = raindb::BloomFilterPolicy::new(other_bits);
+        for sz in [1usize, 3, 50] {
+            let set = generated_keys(sz, 77 + bits as u64);
+            let filter = policy.create_filter(&set);
+            shm.add(C_CASES, 1);
+            for k in set.iter() {
+                shm.add(C_USER + 3, 1);
+                match reader.key_may_match(k, &filter) {
+                    Ok(true) => {}
+                    other => {
+                        found(
+                            shm,
+                            "C14.bloom_false_negative",
+                            &format!(
+                                "filter built with bits_per_key={} and read by a policy with bits_per_key={}: key {} of the set answers {:?}",
+                                bits,
+                                other_bits,
+                                crate::world::esc(k),
+                                other.map_err(|e| e.to_string())
+                            ),
+                            json!({"bits_per_key": bits, "reader_bits_per_key": other_bits, "set": format!("generated{}", sz)}),
+                        );
+                        return;
+                    }
+                }
+            }
+        }
+    }
     // all multisets of size 1..=max_set (with duplicates)
     for i in 0..n {
         if !check(&[ks[i].clone()], "1") {
